@@ -375,3 +375,115 @@ def rot90(k: int):
     c = [1, 0, -1, 0][k % 4]
     s = [0, 1, 0, -1][k % 4]
     return [[Poly.const(c), Poly.const(-s)], [Poly.const(s), Poly.const(c)]]
+
+
+class Rat:
+    """Exact rational function num/den over Poly; equality by cross multiplication."""
+    __slots__ = ("n", "d")
+
+    def __init__(self, n, d=None):
+        self.n = poly(n)
+        self.d = poly(d) if d is not None else Poly.const(1)
+        if self.d.iszero():
+            raise ZeroDivisionError("Rat with zero denominator")
+
+    def __add__(self, o):
+        o = rat(o)
+        return Rat(self.n * o.d + o.n * self.d, self.d * o.d)
+
+    __radd__ = __add__
+
+    def __neg__(self):
+        return Rat(-self.n, self.d)
+
+    def __sub__(self, o):
+        return self + (-rat(o))
+
+    def __rsub__(self, o):
+        return rat(o) - self
+
+    def __mul__(self, o):
+        o = rat(o)
+        return Rat(self.n * o.n, self.d * o.d)
+
+    __rmul__ = __mul__
+
+    def __truediv__(self, o):
+        o = rat(o)
+        if o.n.iszero():
+            raise ZeroDivisionError("division by zero rational function")
+        return Rat(self.n * o.d, self.d * o.n)
+
+    def __rtruediv__(self, o):
+        return rat(o) / self
+
+    def __pow__(self, k):
+        if not isinstance(k, int):
+            raise AnalysisError("non-integer power of a rational function")
+        if k < 0:
+            return Rat(self.d ** (-k), self.n ** (-k))
+        return Rat(self.n ** k, self.d ** k)
+
+    def __eq__(self, o):
+        o = rat(o)
+        return self.n * o.d == o.n * self.d
+
+    def __hash__(self):
+        return 0
+
+    def __repr__(self):
+        return f"({self.n}) / ({self.d})"
+
+
+def rat(x):
+    return x if isinstance(x, Rat) else Rat(x)
+
+
+class RatEval:
+    """Evaluate an expression AST to a Rat; names/calls/attributes not in env are opaque atoms."""
+
+    def __init__(self, env=None, calls=None):
+        self.env = dict(env or {})
+        self.calls = calls
+
+    def ev(self, n) -> Rat:
+        if isinstance(n, ast.Constant) and isinstance(n.value, (int, float)) and not isinstance(n.value, bool):
+            return Rat(Poly.const(q3(n.value)))
+        if isinstance(n, ast.Name):
+            if n.id in self.env:
+                return rat(self.env[n.id])
+            return Rat(Poly.atom(n.id))
+        if isinstance(n, ast.BinOp):
+            a = self.ev(n.left)
+            if isinstance(n.op, ast.Pow):
+                e = n.right
+                if isinstance(e, ast.Constant) and isinstance(e.value, (int, float)) and float(e.value).is_integer():
+                    return a ** int(e.value)
+                if isinstance(e, ast.UnaryOp) and isinstance(e.op, ast.USub) and isinstance(e.operand, ast.Constant) and float(e.operand.value).is_integer():
+                    return a ** (-int(e.operand.value))
+                raise AnalysisError(f"power `{norm(n)}` outside fragment")
+            b = self.ev(n.right)
+            if isinstance(n.op, ast.Add):
+                return a + b
+            if isinstance(n.op, ast.Sub):
+                return a - b
+            if isinstance(n.op, ast.Mult):
+                return a * b
+            if isinstance(n.op, ast.Div):
+                return a / b
+            raise AnalysisError(f"operator in `{norm(n)}` outside fragment")
+        if isinstance(n, ast.UnaryOp) and isinstance(n.op, (ast.USub, ast.UAdd)):
+            v = self.ev(n.operand)
+            return -v if isinstance(n.op, ast.USub) else v
+        if isinstance(n, ast.Call):
+            if self.calls is not None:
+                r = self.calls(n, self)
+                if r is not None:
+                    return rat(r)
+            return Rat(Poly.atom(norm(n)))
+        if isinstance(n, (ast.Attribute, ast.Subscript)):
+            d = norm(n)
+            if d in self.env:
+                return rat(self.env[d])
+            return Rat(Poly.atom(d))
+        raise AnalysisError(f"expression `{norm(n)[:60]}` outside fragment")
